@@ -89,6 +89,23 @@ def run(ctx):
             if beartype_cls(r):
                 per_mod.setdefault(mn, []).append((node, r))
                 continue
+            if r.kind == 'def' and isinstance(node.exc, ast.Call) and isinstance(getattr(r, 'node', None), ast.FunctionDef):
+                # `raise _make_some_exception(…)`: an exception factory of the repository — every value it returns must
+                # be an instance of a BeartypeException subclass
+                fm = repo.modules.get(r.module)
+                rets = [x for x in walk_shallow(r.node) if isinstance(x, ast.Return)]
+                classes = []
+                for x in rets:
+                    c_ = x.value.func if isinstance(x.value, ast.Call) else None
+                    rr = repo.resolve_expr(fm, c_) if (c_ is not None and fm is not None) else None
+                    classes.append(rr if (rr is not None and beartype_cls(rr)) else None)
+                okf = bool(rets) and all(c_ is not None for c_ in classes)
+                ctx.ob('C11.R1', f'raise:{key}:{norm(f)}', m.where(node),
+                       'an exception factory called in a raise statement returns instances of BeartypeException subclasses only',
+                       okf, f'`raise {norm(node.exc)[:60]}`: {r.name} returns {[norm(x.value)[:40] if x.value is not None else None for x in rets]}')
+                if okf:
+                    per_mod.setdefault(mn, []).append((node, classes[0]))
+                continue
             if r.kind == 'local':
                 nm = dotted(f)
                 ok = fn is not None and nm in params_of(fn) and nm in ('exception_cls', 'exception')
